@@ -119,6 +119,12 @@ def _isinstance(E, st, args, kw, n):
             tag = ops.UF("dyn_isinstance_" + "_".join(q.split(":")[1] for q in names), z3.IntSort(), z3.BoolSort())
             yield st, vbool(z3.And(v.t != 0, tag(v.t)))
             return
+        if real_v is None:
+            # the schema class is a stand-in for several real classes (e.g. "any parse-tree node"): whether the object is
+            # an instance of the named class is not known statically
+            tag = ops.UF("dyn_isinstance_" + "_".join(q.split(":")[1] for q in names), z3.IntSort(), z3.BoolSort())
+            yield st, vbool(z3.And(v.t != 0, tag(v.t)))
+            return
         yield st, vbool(False)
         return
     if k == "any":
